@@ -53,6 +53,24 @@ Theorem C01_order_irrelevant : forall (val : Type) (M : Mon), MonLaws M ->
 Proof. intros val M ML o o1 o2 s1 s2 rest. exact (order_irrelevant val M ML o s1 s2 o1 o2 rest). Qed.
 Print Assumptions C01_order_irrelevant.
 
+(* branching histories: any number of children derived from the SAME parent object, in any order,
+   including the identical conditioning repeated, each evaluate to the parent at the corresponding
+   complete assignment.  (In the model objects are values, so "the parent is unchanged by deriving a
+   child" holds by construction; that the implementation's objects do not share mutable state --
+   e.g. _add_constants_to_density writing onto a factor still referenced by the parent -- is what the
+   check_history correspondence cases test: every earlier object is re-evaluated after each step.) *)
+Theorem C01_branching : forall (val : Type) (M : Mon), MonLaws M ->
+  forall (o : obj val M) (kws : list (list (var * val))),
+  wf_obj val M o ->
+  forall kw o' rest, In kw kws -> obj_cond_kw o kw = Some o' ->
+  NoDup (dom kw) -> incl (dom kw) (obj_params o) -> (forall v, In v (dom kw) -> ~ In v (dom rest)) ->
+  obj_logd_kw o' rest = obj_logd_kw o (kw ++ rest).
+Proof.
+  intros val M ML o kws W kw o' rest _ H ND I Hd.
+  exact (proj1 (obj_step val M ML o kw o' rest W H ND I Hd)).
+Qed.
+Print Assumptions C01_branching.
+
 (* positional calls equal the keyword calls they abbreviate: joint evaluation and conditioning,
    Posterior, Likelihood, Distribution (non-conditional and conditional; `strict` = either state
    of the code w.r.t. the finding below) *)
